@@ -36,8 +36,11 @@ KNOWN = set(_json.loads((_Path(__file__).parent / 'known_helpers.json').read_tex
 KNOWN_NAMES = {n.rsplit('.', 1)[-1] for n in KNOWN}
 
 
+RENAMED_FQ = set()      # fq of private helpers recognised as renamed helpers of the confirmed tree (set by expand_repo)
+
+
 def _known(g):
-    if g.fq in KNOWN:
+    if g.fq in KNOWN or g.fq in RENAMED_FQ:
         return True
     if g.name in KNOWN_NAMES:
         mod = g.module.name
@@ -579,6 +582,8 @@ class Inliner:
 
 
 def expand_repo(repo):
+    RENAMED_FQ.clear()
+    RENAMED_FQ.update(f.fq for f in getattr(repo, 'renamed', {}).values())
     inl = Inliner(repo)
     for m in repo.modules.values():
         for f in list(m.functions.values()):
